@@ -42,7 +42,10 @@ def mext0 : Ext :=
   { norm := id, safePrefix := fun _ => none, setOf := fun _ ps => .ok (.sset (ps.map fun _ => 7) ps) }
 
 /-- the one assumption of the no-panic clause is satisfiable -/
-theorem mext0_setnp : SetNP mext0 := by intro e ps w h; simp [mext0] at h
+theorem mext0_setnp : SetNP mext0 := by
+  intro e ps w h
+  change (Res.ok _ : Res Payload) = .panic w at h
+  cases h
 
 /-! ## Clause 1 — never a panic -/
 
@@ -353,6 +356,13 @@ without it, or an error — at every depth, for every limit. -/
 theorem json_implied_limit_only_adds_errors (env : JsonVal.JEnv) (max d : Nat) (j : Json) :
     jsonImplied env max d j = JsonVal.impliedType env j ∨ ∃ c, jsonImplied env max d j = .err c :=
   jsonImplied_eq_or_err env max j d
+
+/-- … and within the limit it changes nothing at all: a document nested at most
+`maxImpliedTypeDepth` deep gets exactly the outcome of the limit-free function (the correspondence of
+the JSON half before /repo 0c63e6a, and the theorems about `JsonVal.impliedType`, stay valid there). -/
+theorem json_implied_within_limit_unchanged (env : JsonVal.JEnv) (j : Json)
+    (h : jnest j ≤ Generated.jsonMaxImpliedTypeDepth) : jsonImpliedType env j = JsonVal.impliedType env j :=
+  jsonImplied_within env Generated.jsonMaxImpliedTypeDepth j 0 (Or.inl (by omega))
 
 /-- … so `json.ImpliedType` with its limit never panics, on every token tree … -/
 theorem json_implied_limited_never_panics (env : JsonVal.JEnv) (j : Json) (w : String) :
